@@ -25,7 +25,7 @@ CFG = dict(
          "`fastTri` (2 cases in quick: a real TriangleSource that cannot keep up with its "
          "own schedule - 2 samples per buffer at 10 MHz, 8 channels -, a few blocks, optionally the loop held 3 ms, 1-3 concurrent Stops, restart). `roachSrc` (1 case in quick, variant by seed: the real RoachSource configured through "
          "the real ConfigureRoachSource on a loopback port with a sender of ROACH datagrams - run/requests/Stop x k/restart; sender stops (keep-alive ends the run); no sender (failed Start); "
-         "busy port; mismatched lists - each followed by configure + run again; run end = Inactive, goroutines gone, port free) and `abacoRPC` (AbacoSource through ConfigureAbacoSource "
+         "busy port; mismatched lists - each followed by configure + run again; variant 5: TWO devices of 2 and 3 channels, known finding: the first block panics the core loop; run end = Inactive, goroutines gone, port free) and `abacoRPC` (AbacoSource through ConfigureAbacoSource "
          "over loopback UDP, Start/Stop through the RPC layer, Delete); for sources without producer sites the producer's steps are inferred from what the loop receives. After every failed Start the real "
          "object's completion barrier is observed (runDone.Wait() returns? run-done channel closed?) and judged: Inactive <-> counter 0. The logged "
          "trace must be a run of the Lean transition system; return values, GetState(), goroutine census, writing flag and UDP-port re-bindability "
@@ -65,7 +65,7 @@ MANIFEST = dict(
          "of the MODEL; liveness is proved for the model (well-founded measure under a fairness assumption on select) and only OBSERVED on the real code (watchdog). "
          "Go scheduler, sync and channel semantics are assumptions of the model; critical sections of sourceStateLock are atomic steps. Defects found and repaired: "
          "writing left active after self-termination (8f9149d), failed Abaco Start keeps UDP sockets (68e3d92), Abaco UDP reader goroutine never exits (6d574d1); "
-         "a delayed Stop waiting on the next run (d9d435f), one undecodable UDP datagram wedging the Abaco source (588eaa1), three ROACH-source defects (b232e47 panic on Start without data, d2a117c sockets kept after a self-ended run, e14db08 reader goroutine leaked per Stop); known finding: Stop on a Starting source panics.",
+         "a delayed Stop waiting on the next run (d9d435f), one undecodable UDP datagram wedging the Abaco source (588eaa1), three ROACH-source defects (b232e47 panic on Start without data, d2a117c sockets kept after a self-ended run, e14db08 reader goroutine leaked per Stop); known findings: Stop on a Starting source panics; a ROACH source of two devices panics the core loop on its first block (source sized for the sum of the channels, blocks forwarded per device).",
     technique="Lean 4 invariants / measure over a labelled transition system; tied to the Go code by trace conformance and outcome comparison under forced interleavings",
 )
 
@@ -100,6 +100,8 @@ THEOREMS = [
     ("DastardV.Props.C10", "DastardV.C10.C10_deactivate_releases_waiters"),
     ("DastardV.Props.C10", "DastardV.C10.C10_released_stop_returns"),
     ("DastardV.Props.C10", "DastardV.C10.C10_stop_waited_inactive"),
+    ("DastardV.Props.C10", "DastardV.C10.C10_roach_blocks_fit_partial"),
+    ("DastardV.Props.C10", "DastardV.C10.C10_roach_blocks_fit_counterexample"),
 ]
 
 # hooks in /repo this check relies on (all `verif hooks:` commits, build tag verif, add-only)
